@@ -330,7 +330,7 @@ def run(ctx):
         no_early_exit(ctx, ro, D, "drop-loop:no-early-exit", "runnable_rulesets_")
         hdr = loop_header(ro, D)
         n_ = ro.nodes[D["stmt"]]
-        condt = ro.text(n_["c"]) if n_["k"] == "for" and "c" in n_ else ("range" if n_["k"] == "rangefor" else "?")
+        condt = ro.text(n_["c"]) if n_["k"] in ("for", "while") and "c" in n_ else ("range" if n_["k"] == "rangefor" else "?")
         ctx.check(n_["k"] == "rangefor" or re.match(r"^\((\w+) != this->runnable_rulesets_\.end\(\)\)$|^\(this->runnable_rulesets_\.end\(\) != (\w+)\)$", condt) is not None,
                   "drop-loop:whole-map", "loop-shape", ro.loc(D["stmt"]), "the drop loop runs until the end of the instance map", "drop loop condition is " + condt)
     # cgroup_-less rulesets run the template directly
@@ -405,9 +405,17 @@ def run(ctx):
     instance_action_args(ctx)
     ins = [i for i, n in enumerate(rg.nodes) if n["k"] == "call" and n.get("op") == "=" and "recv" in n
            and "this->runnable_rulesets_[" in rg.text(n["recv"])]
-    ctx.check(len(ins) == 1 and ("[%s.absolutePath()]" % cgn) in rg.text(rg.nodes[ins[0]]["recv"]), "instance-stored-under-absolute-path", "provenance",
-              rg.loc(ins[0]) if ins else rg.loc(), "the instance is stored under the cgroup's absolute path (the key runOnce uses)",
-              "instance is stored under another key than runOnce looks up")
+    # ... or the keyed-insert spellings of the same store (insert_or_assign / emplace / try_emplace / insert({k, v}))
+    ins_k = [i for i in rg.calls("insert_or_assign", "emplace", "try_emplace", "insert") if "recv" in rg.nodes[i]
+             and rg.text(rg.nodes[i]["recv"]).replace("this->", "") == "runnable_rulesets_" and rg.nodes[i].get("args")]
+    key_ok = (len(ins) == 1 and ("[%s.absolutePath()]" % cgn) in rg.text(rg.nodes[ins[0]]["recv"])) or \
+        (not ins and len(ins_k) == 1 and hoist_text(rg, rg.nodes[ins_k[0]]["args"][0], P).startswith("%s.absolutePath()" % cgn))
+    if not ins and not ins_k:
+        ctx.broken("instance-stored-under-absolute-path", "anchor", rg.loc(), "no store into runnable_rulesets_ found in registerRunnableRulesetForCgroupPath")
+    else:
+        ctx.check(key_ok, "instance-stored-under-absolute-path", "provenance",
+                  rg.loc((ins or ins_k)[0]), "the instance is stored under the cgroup's absolute path (the key runOnce uses)",
+                  "instance is stored under another key than runOnce looks up")
     mk = [i for i in rg.calls("make_unique") if "Ruleset" in rg.nodes[i].get("type", "") and "DetectorGroup" not in rg.nodes[i].get("type", "")]
     for i in mk:
         a = [rg.text(x) for x in rg.nodes[i]["args"]]
